@@ -84,7 +84,7 @@ structure Layer where
   allStartsAbs : List Abs := []
   abs2index : AList Abs (Nat × Nat × AList DP Nat) := []
   outputSize : Nat := 0
-  deriving Repr
+  deriving Repr, DecidableEq
 
 /-- body of `for S in grammar.rules:` (det 91-101, u 111-121); `ρ` is the type of the right
     hand sides, which the constructor does not look at -/
